@@ -618,10 +618,10 @@ func (w *Writer) Write(f feat.Feature) (n int, err error) {
 			} else {
 				_n, err = fmt.Fprintf(w.w, "%.*f", w.Precision, *f.FeatScore)
 			}
+			n += _n
 			if err != nil {
 				return n, err
 			}
-			n += _n
 		} else {
 			_, err = w.w.Write([]byte{'.'})
 			if err != nil {
@@ -639,10 +639,10 @@ func (w *Writer) Write(f feat.Feature) (n int, err error) {
 		}
 		if f.FeatAttributes != nil {
 			_n, err = fmt.Fprintf(w.w, "\t%v", f.FeatAttributes)
+			n += _n
 			if err != nil {
 				return n, err
 			}
-			n += _n
 		} else if f.Comments != "" {
 			_, err = w.w.Write([]byte{'\t'})
 			if err != nil {
